@@ -58,7 +58,7 @@ ASSUMPTIONS = [
     "the azimuth is the one of the velocity (Vallado Alg. 27, as documented in getAzimuth)",
     "inputs within the derived rounding band of a predicate's own threshold are classified either-way",
 ]
-EXPECT_MIN_NONTRIVIAL = 8000
+EXPECT_MIN_NONTRIVIAL = 50000
 
 R = vg.R_EARTH
 DEG = math.pi / 180.0
@@ -119,9 +119,8 @@ LOS_SPANS_T = LOS_SPANS_Q + [(-100.0, 100.0), (-63000.0, 10.0), (5500.0, 5600.0)
                              (-15000.0, 41000.0)]
 
 FOV_SHAPES_Q = [("conic", 1.0), ("conic", 60.0), ("conic", 179.0), ("rect", 1.0, 1.0), ("rect", 2.0, 2.0),
-                ("rect", 20.0, 10.0), ("rect", 179.0, 179.0)]
-FOV_SHAPES_T = FOV_SHAPES_Q + [("conic", 0.1), ("conic", 10.0), ("rect", 0.1, 0.1), ("rect", 10.0, 40.0),
-                               ("rect", 120.0, 5.0)]
+                ("rect", 20.0, 10.0), ("rect", 179.0, 179.0), ("conic", 10.0), ("rect", 10.0, 40.0)]
+FOV_SHAPES_T = FOV_SHAPES_Q + [("conic", 0.1), ("rect", 0.1, 0.1), ("rect", 120.0, 5.0)]
 FOV_FRACTIONS_Q = [-1.02, -0.98, -0.5, 0.0, 0.5, 0.98, 1.02]
 FOV_FRACTIONS_T = [-1.5, -1.02, -1.001, -0.999, -0.98, -0.5, -0.25, 0.0, 0.25, 0.5, 0.98, 0.999, 1.001, 1.02, 1.5]
 FOV_ROT_Q = [0.3, 90.0, 359.9]
@@ -144,8 +143,9 @@ def _fov_shapes(tier):
     return FOV_SHAPES_Q if tier == "quick" else FOV_SHAPES_T
 
 
-MASKS_Q = [(0.0, 359.99), (350.0, 10.0), (10.0, 350.0), (90.0, 90.0), (359.99, 0.0), (180.0, 0.0), (0.0, 0.0), (270.0, 90.0)]
-MASKS_T = MASKS_Q + [(0.0, 180.0), (359.0, 1.0), (1.0, 359.0), (45.0, 44.0), (200.0, 100.0), (100.0, 200.0)]
+MASKS_Q = [(0.0, 359.99), (350.0, 10.0), (10.0, 350.0), (90.0, 90.0), (359.99, 0.0), (180.0, 0.0), (0.0, 0.0), (270.0, 90.0),
+           (359.0, 1.0), (45.0, 44.0)]
+MASKS_T = MASKS_Q + [(0.0, 180.0), (1.0, 359.0), (200.0, 100.0), (100.0, 200.0)]
 EL_MASKS = [(5.0, 85.0), (-89.9, 90.0)]
 MASK_ELS = [-20.0, 4.9, 5.1, 45.0, 84.9, 85.1]
 
@@ -282,6 +282,18 @@ def _call(fn, *args, **kw):
         return _Raised(exc)
 
 
+def _build(res, sub, factory, item, *args):
+    """Construct a library object through its factory; a failure on a valid configuration is a violation."""
+    try:
+        obj = factory(*args)
+    except Exception as exc:  # noqa: BLE001
+        res.violate(sub, {"args": fw.jsonable(args)}, signature=f"C14/{sub}", observed=f"{type(exc).__name__}: {exc}"[:200],
+                    expected="object constructed", item=item)
+        return None
+    res.case(sub, {"args": fw.jsonable(args)}, True, signature=f"C14/{sub}", item=item)
+    return obj
+
+
 def _boolish(x):
     return isinstance(x, (bool, np.bool_))
 
@@ -313,7 +325,7 @@ def _los_case(res, sub, a, b, case, item, sig_prefix):
     band = vg.los_band(a, b)
     in_band = abs(closest - R) < band
     coincident = a == b
-    nontriv = (not coincident) and line_closest < R + 100.0
+    nontriv = (not coincident) and line_closest < R + 100.0 and not in_band
     got_ab = _call(su.lineOfSight, _arr(a), _arr(b))
     got_ba = _call(su.lineOfSight, _arr(b), _arr(a))
     region = "coincident_points" if coincident else ("inside" if 0.0 <= t_line <= 1.0 else ("before" if t_line < 0 else "after"))
@@ -407,7 +419,7 @@ def _fov_eval(res, fov, shape, p, t, case, item, nontriv_extra=False):
     else:
         sig = f"C14/fov/{kind}/{'false_reject' if exp else 'false_accept'}"
     edge = any(abs(abs(case.get(k, 0.0)) - 1.0) <= 0.021 for k in ("fa", "fe", "f"))
-    nontriv = edge or straddle or nontriv_extra
+    nontriv = (edge or straddle or nontriv_extra) and not either
     res.case(
         f"fov/{kind}/exact", dict(case, straddles_seam=straddle, expected=exp, **detail), ok, nontrivial=nontriv,
         signature=sig, observed=repr(got), expected=exp,
@@ -438,7 +450,9 @@ def _fov_rotations(res, fov, shape, p, t, base, case, item, rots, nontriv_extra=
 def _run_fov(res, item):
     _, tier, seed, si, a0, a1 = item
     shape = tuple(_fov_shapes(tier)[si])
-    fov = _make_fov(shape)
+    fov = _build(res, "fov/construct", _make_fov, item, shape)
+    if fov is None:
+        return
     fracs = FOV_FRACTIONS_Q if tier == "quick" else FOV_FRACTIONS_T
     rots = FOV_ROT_Q if tier == "quick" else FOV_ROT_T
     els = FOV_EL_Q if tier == "quick" else FOV_EL_T
@@ -472,7 +486,9 @@ def _run_fov_radial(res, item):
     """Conic: targets at angular distance f*half along 8 position angles (incl. across the seam and over the pole)."""
     _, tier, seed, si = item
     shape = tuple(_fov_shapes(tier)[si])
-    fov = _make_fov(shape)
+    fov = _build(res, "fov/construct", _make_fov, item, shape)
+    if fov is None:
+        return
     half = shape[1] * DEG / 2
     rots = FOV_ROT_Q if tier == "quick" else FOV_ROT_T
     fr = [0.0, 0.5, 0.98, 1.02, 1.5] if tier == "quick" else [0.0, 0.25, 0.5, 0.98, 0.999, 1.001, 1.02, 1.5, 1.9]
@@ -496,7 +512,9 @@ def _run_fov_zenith(res, item):
     """Pointing (or target) exactly at the zenith: azimuth comes from the velocity."""
     _, tier, seed, si = item
     shape = tuple(_fov_shapes(tier)[si])
-    fov = _make_fov(shape)
+    fov = _build(res, "fov/construct", _make_fov, item, shape)
+    if fov is None:
+        return
     rots = FOV_ROT_Q if tier == "quick" else FOV_ROT_T
     ha = shape[1] / 2
     he = (shape[2] if shape[0] == "rect" else shape[1]) / 2
@@ -598,6 +616,7 @@ def _isvisible_case(res, sub, sensor, host, az_mask, el_mask, az, el_deg, rho, h
     nontriv = exp_why in ("VISIBLE", "AZIMUTH_MASK") and (wraps or margin < 1e-5)
     if sub != "mask/azimuth":
         nontriv = exp_why not in ("VISIBLE", "AZIMUTH_MASK")
+    nontriv = nontriv and not either
     res.case(
         sub,
         {"host": hname, "az_mask_deg": list(az_mask), "el_mask_deg": list(el_mask), "az_rad": az, "az_deg": az / DEG,
@@ -614,7 +633,9 @@ def _run_mask(res, item):
     az_mask = (MASKS_Q if tier == "quick" else MASKS_T)[mi]
     hname, host = _hosts(seed)[hi]
     for el_mask in EL_MASKS:
-        sensor = _make_sensor(az_mask, el_mask, host)
+        sensor = _build(res, "mask/construct", _make_sensor, item, az_mask, el_mask, host)
+        if sensor is None:
+            continue
         got_masks = [list(np.asarray(sensor.az_mask, dtype=float)), list(np.asarray(sensor.el_mask, dtype=float))]
         want = [[az_mask[0] * DEG, az_mask[1] * DEG], [el_mask[0] * DEG, el_mask[1] * DEG]]
         res.case("mask/config_units", {"az_mask_deg": list(az_mask), "el_mask_deg": list(el_mask)},
@@ -630,7 +651,9 @@ def _run_mask_range(res, item):
     _, tier, seed = item
     for hname, host in _hosts(seed):
         for az_mask in ((350.0, 10.0), (10.0, 350.0)):
-            sensor = _make_sensor(az_mask, (-89.9, 90.0), host)
+            sensor = _build(res, "mask/construct", _make_sensor, item, az_mask, (-89.9, 90.0), host)
+            if sensor is None:
+                continue
             for rho in (50.0, 99.999, 100.001, 1000.0, 5000.0, 49999.0, 50001.0, 1e6):
                 for az_deg in (0.0, 5.0, 9.999, 10.001, 180.0, 349.999, 350.001, 359.9):
                     for el in (-80.0, -20.0, -10.0, 10.0, 89.0):
@@ -661,7 +684,7 @@ def _run_sun(res, item):
             gotf = _f(got)
             case = {"r_km": r, "theta_rad": th, "sun_km": sun, "perp": pi_, "kind": kind, "a": a, "b": b, "c": c}
             near = abs(c - (b - a)) < 2 * a or abs(c - (a + b)) < 2 * a
-            nontriv = kind == "penumbra" or near
+            nontriv = (kind == "penumbra" or near) and r >= R + 1e-9
             res.case("sun/range", case, math.isfinite(gotf) and 0.0 <= gotf <= 1.0, nontrivial=nontriv,
                      signature="C14/sun/range", observed=gotf, expected="[0,1]", item=item)
             surface_day = r < R + 1.0 and vg.norm(sun) >= vg.norm([q - p for p, q in zip(sat, sun)])
@@ -736,7 +759,7 @@ def _run_limb(res, item):
                         "limb/tangent_cone",
                         {"r_km": r, "dir": di, "az_deg": az_deg, "nadir_angle_rad": oeta, "cone_rad": cone, "range_km": rho,
                          "expected": exp},
-                        either or (_boolish(got) and bool(got) == exp), nontrivial=abs(oeta - cone) < 1e-2,
+                        either or (_boolish(got) and bool(got) == exp), nontrivial=abs(oeta - cone) < 1e-2 and not either,
                         signature=f"C14/limb/{'false_clear' if exp else 'false_obscured'}", observed=repr(got), expected=exp,
                         outcome="obscured" if exp else "clear", item=item,
                     )
@@ -774,18 +797,25 @@ def _cone_lattice(res, sub, fn_call, axis_unit, tier, threshold, case0, item, wa
     """Predicate 'angle(axis, v) >= threshold' on vectors v at lattice angles from ``axis_unit`` in 3 planes."""
     e1, e2 = vg.perp_frame(axis_unit)
     for pi_, perp in enumerate((e1, e2, vg.unit(vg.add(e1, vg.scale(e2, -0.7))))):
-        for th in _cone_thetas(tier, threshold):
-            v = vg.add(vg.scale(axis_unit, math.cos(th)), vg.scale(perp, math.sin(th)))
+        thetas = _cone_thetas(tier, threshold) + ([0.0, math.pi] if pi_ == 0 else [])
+        for th in thetas:
+            at_pole = th in (0.0, math.pi)
+            if at_pole:  # exactly along / against the axis: the cosine is +-1 up to rounding
+                v = vg.scale(axis_unit, 1.0 if th == 0.0 else -1.0)
+            else:
+                v = vg.add(vg.scale(axis_unit, math.cos(th)), vg.scale(perp, math.sin(th)))
             ang = vg.angle_between(axis_unit, v)
             exp = ang >= threshold
             either = abs(ang - threshold) < ANG_BAND
             got = fn_call(v)
             if either:
                 res.either_way += 1
-            res.case(sub, dict(case0, plane=pi_, angle_rad=ang, threshold_rad=threshold, expected=exp),
-                     _boolish(got) and (either or bool(got) == exp), nontrivial=abs(ang - threshold) < 1e-2,
-                     signature=f"C14/{sub}/{'false_reject' if exp else 'false_accept'}", observed=repr(got), expected=exp,
-                     outcome="ok" if exp else "excluded", item=item)
+            kind = "pole_arccos_domain" if at_pole else ("false_reject" if exp else "false_accept")
+            res.case(sub, dict(case0, plane=pi_, angle_rad=ang, threshold_rad=threshold, expected=exp, at_pole=at_pole),
+                     _boolish(got) and (either or bool(got) == exp),
+                     nontrivial=(abs(ang - threshold) < 1e-2 or at_pole) and not either,
+                     signature=f"C14/{sub}/{kind}", observed=repr(got), expected=exp,
+                     outcome=("pole:" if at_pole else "") + ("ok" if exp else "excluded"), item=item)
             res.observe(bool(got))
 
 
